@@ -352,6 +352,7 @@ def cases_c18(ctx, boost):
                                 f"dec {cfg} {path} {(chead(2, len(r['ser'][0])) + r['ser'][0].encode()).hex()}", tag="str as bytes"))
             if r.get("leaf") == "enumRepr":
                 nums = list(range(256)) + [256, 257, 0xFFFF, 0x10000, 0xFFFFFFFF, 0x100000000, 2 ** 64 - 1] + \
+                    [d + k for d in r["discs"] for k in (256, 512, 65536, 2 ** 24, 2 ** 32, 2 ** 40)] + \
                        [0x100 + d for d in r["discs"]] + [0x10000 + d for d in r["discs"]]
                 for n in nums:
                     hx = chead(0, n).hex()
